@@ -116,6 +116,7 @@ type Compiler struct {
 	stmtDepth     int
 	lastPos       token.Pos
 	declStack     []*Sym
+	Overloaded    int    // calls issued through an overload family
 	MidAbort      string // set when the subset was exceeded after operations had been issued
 }
 
